@@ -64,6 +64,59 @@ def sv_steps(n, steps, slm, with_init, phase=True):
     return fn
 
 
+def sv_callbacks(n, steps):
+    """What the callbacks receive: at t=0 the initial state and the Hamiltonian of the first
+    step; after step k the state returned by that step and that step's Hamiltonian."""
+
+    def fn(env):
+        T = env.torch
+        from harness.c13 import FakeConfig, probe_observable
+
+        data, sym = make_data(env, n, steps, last_time=40)
+        seen_all = []
+        obs, seen = probe_observable()
+        obs.evaluation_times = None
+        orig_apply = type(obs).apply
+
+        def apply(self, *, config, state, hamiltonian, **kw):
+            # the backend mutates `state.data` in place of the object: keep the tensor of this moment
+            seen_all.append((SimpleNamespace(data=state.data), hamiltonian))
+            return 0
+
+        type(obs).apply = apply
+        cfg = FakeConfig([obs], [t / 40.0 for t in sym.ts])
+        cfg.gpu = False
+        cfg.initial_state = None
+        cfg.krylov_tolerance = 1e-8
+
+        def run(rec):
+            impl = build_sv_impl(env, data, cfg)
+            impl.results.total_duration = 40
+            impl._run()
+            return impl
+
+        try:
+            impl, rec = with_krylov_stub(env, "vec", run)
+        finally:
+            type(obs).apply = orig_apply
+        env.check(len(seen_all) == steps + 1, "the observable is evaluated at t=0 and after every step")
+        v = env.tensor_cplx("w", (2**n,))
+        for k, (st, ham) in enumerate(seen_all):
+            step = 0 if k == 0 else k - 1
+            if env.mutant("next_step_hamiltonian") and 0 < k < steps:
+                step = k
+            H = h_ref_step(env, sym, step, sym.full, n)
+            env.check_eq(ham * v.clone(), H @ v, f"callback #{k} receives the Hamiltonian of step {step}")
+            if k == 0:
+                g = T.zeros(2**n, dtype=T.complex128)
+                g[0] = 1.0
+                env.check_eq(st.data, g, "callback #0 receives the initial state")
+            else:
+                env.check_eq(st.data, rec.calls[k - 1].out, f"callback #{k} receives the state returned by step {k-1}")
+
+    return fn
+
+
 META = {
     "explanation": (
         "The real SVBackendImpl (constructor, _run, step, _evolve_step), EvolveStateVector.forward/evolve and the matrix-free "
@@ -96,6 +149,17 @@ def cases(tier):
                 canaries=["wrong_unit"] + (["step_off_by_one"] if k > 1 else []),
                 weight=4**n * k,
                 deadline_s=1200,
+            )
+        )
+    for n, k in ([(2, 2)] if tier == "quick" else [(1, 3), (2, 2), (3, 2)]):
+        out.append(
+            Case(
+                f"sv_callbacks_n{n}_steps{k}",
+                sv_callbacks(n, k),
+                covers=COVERS + [("emu_sv/sv_backend_impl.py", "SVBackendImpl._apply_observables")],
+                bounds={"atoms": n, "steps": k},
+                canaries=["next_step_hamiltonian"] if k > 1 else [],
+                weight=4**n * k,
             )
         )
     return out
